@@ -4,10 +4,16 @@
    always moves and poisons the old block, live-block accounting per case. */
 #include "common.h"
 #include <unistd.h>
+#include <pthread.h>
 
 long cur_line = 0;
 static int first_tok = 1;
-static FILE *OUT;
+static __thread FILE *OUT;
+static FILE *MAINOUT;        /* the process's real output: a signal inside a worker thread reports there */
+static pthread_mutex_t alloc_mu = PTHREAD_MUTEX_INITIALIZER;
+static int threaded = 0;
+#define LOCK() do { if (threaded) pthread_mutex_lock(&alloc_mu); } while (0)
+#define UNLOCK() do { if (threaded) pthread_mutex_unlock(&alloc_mu); } while (0)
 
 /* ------------------------------------------------------------------ output */
 static void sep(void) { fputc(' ', OUT); }
@@ -138,7 +144,7 @@ static blk *find_live(void *p)
   for (blk *b = live; b; b = b->next) if (user(b) == (unsigned char *)p) return b;
   return NULL;
 }
-static void *rec_alloc(size_t n)
+static void *rec_alloc_u(size_t n)
 {
   blk *b = (blk *) malloc(sizeof(blk) + 2*RZ + n);
   if (!b) { fprintf(stderr, "oom\n"); exit(3); }
@@ -156,7 +162,7 @@ static void unlink_blk(blk *b)
   if (b->next) b->next->prev = b->prev;
   live_blocks--;
 }
-static void rec_free(void *p, size_t n)
+static void rec_free_u(void *p, size_t n)
 {
   blk *b = find_live(p);
   alloc_events++;
@@ -168,16 +174,16 @@ static void rec_free(void *p, size_t n)
   memset(user(b), 0xDD, b->size);
   free(b);
 }
-static void *rec_realloc(void *p, size_t old, size_t new_)
+static void *rec_realloc_u(void *p, size_t old, size_t new_)
 {
   blk *b = find_live(p);
   alloc_events++;
   tr("R%lx,%lx ", (unsigned long)old, (unsigned long)new_);
-  if (!b) { alloc_errors++; return rec_alloc(new_); }
+  if (!b) { alloc_errors++; return rec_alloc_u(new_); }
   if (b->size != old) alloc_errors++;
   if (!rz_ok(b)) alloc_errors++;
   int t = alloc_trace; alloc_trace = 0;         /* suppress the inner A event */
-  void *q = rec_alloc(new_); alloc_events--;
+  void *q = rec_alloc_u(new_); alloc_events--;
   alloc_trace = t;
   memcpy(q, p, b->size < new_ ? b->size : new_);
   unlink_blk(b);
@@ -185,6 +191,9 @@ static void *rec_realloc(void *p, size_t old, size_t new_)
   free(b);
   return q;
 }
+static void *rec_alloc(size_t n) { LOCK(); void *p = rec_alloc_u(n); UNLOCK(); return p; }
+static void rec_free(void *p, size_t n) { LOCK(); rec_free_u(p, n); UNLOCK(); }
+static void *rec_realloc(void *p, size_t o, size_t n) { LOCK(); void *q = rec_realloc_u(p, o, n); UNLOCK(); return q; }
 int all_redzones_ok(void)
 {
   for (blk *b = live; b; b = b->next) if (!rz_ok(b)) return 0;
@@ -197,17 +206,46 @@ static void on_signal(int sig)
 {
   /* report the case that died, flush what was printed so far, and stop: the Python
      side re-runs the cases that follow */
-  fprintf(OUT, " CRASH-SIGNAL %d\n", sig);
-  fflush(OUT);
+  FILE *o = MAINOUT ? MAINOUT : OUT;
+  fprintf(o, " CRASH-SIGNAL %d\n", sig);
+  fflush(o);
   _exit(100 + sig);
 }
+
+/* ------------------------------------------------------------------ watched globals (C15)
+   VERIF_WATCH=<file of "hexaddr size name" lines, link-time addresses from nm -S of this executable>:
+   globals_snapshot copies the bytes of every listed object, globals_compare names the ones that changed since. */
+extern char __executable_start;
+typedef struct { unsigned char *p; size_t n; char name[96]; unsigned char *copy; } watch_t;
+static watch_t *watch; static int nwatch;
+static void op_globals_snapshot(int argc, char **argv)
+{
+  (void)argc; (void)argv; const char *fn = getenv("VERIF_WATCH"); if (!fn) { outs("NO-WATCH-FILE"); return; }
+  FILE *f = fopen(fn, "r"); if (!f) { outs("NO-WATCH-FILE"); return; }
+  unsigned long base_link = 0, a, n; char nm[96]; nwatch = 0; watch = (watch_t *)calloc(4096, sizeof(watch_t));
+  while (fscanf(f, "%lx %lx %95s", &a, &n, nm) == 3) {
+    if (!strcmp(nm, "__executable_start")) { base_link = a; continue; }
+    if (nwatch < 4096) { watch[nwatch].p = (unsigned char *)a; watch[nwatch].n = n; strcpy(watch[nwatch].name, nm); nwatch++; }
+  }
+  fclose(f);
+  long off = (long)((unsigned long)&__executable_start - base_link);
+  for (int i = 0; i < nwatch; i++) { watch[i].p += off; watch[i].copy = (unsigned char *)malloc(watch[i].n ? watch[i].n : 1); memcpy(watch[i].copy, watch[i].p, watch[i].n); }
+  outl(nwatch);
+}
+static void op_globals_compare(int argc, char **argv)
+{
+  (void)argc; (void)argv; int changed = 0;
+  for (int i = 0; i < nwatch; i++) if (memcmp(watch[i].copy, watch[i].p, watch[i].n)) { outs(watch[i].name); changed++; }
+  outl(changed);
+}
+static const op_t ops_globals[] = { {"globals_snapshot", op_globals_snapshot}, {"globals_compare", op_globals_compare}, {NULL, NULL} };
 
 /* ------------------------------------------------------------------ dispatch */
 #ifdef KERN_ONLY
 extern const op_t ops_kern[];
 static const op_t *tables[] = { ops_kern, NULL };
 #else
-static const op_t *tables[] = { ops_basic, ops_mul, ops_div, ops_bit, ops_alias, ops_conv, ops_q, ops_hist, ops_radix, ops_gcd, ops_pow, ops_root, ops_f, ops_comb, ops_io, ops_printf, ops_printf2, ops_rand, NULL };
+static const op_t *tables[] = { ops_basic, ops_mul, ops_div, ops_bit, ops_alias, ops_conv, ops_q, ops_hist, ops_radix, ops_gcd, ops_pow, ops_root, ops_f, ops_comb, ops_io, ops_printf, ops_printf2, ops_rand, ops_globals, NULL };
 #endif
 
 static op_fn lookup(const char *name)
@@ -218,16 +256,45 @@ static op_fn lookup(const char *name)
   return NULL;
 }
 
+/* ------------------------------------------------------------------ threads (C15)
+   VERIF_THREADS=N: every case is executed by N threads at the same time, each on its own objects and its own
+   output buffer; the outputs must be byte-identical, and one of them is printed. */
+typedef struct { op_fn f; int ac; char **av; char *buf; size_t len; pthread_barrier_t *bar; } tjob;
+static void *trun(void *p)
+{
+  tjob *j = (tjob *)p;
+  OUT = open_memstream(&j->buf, &j->len);
+  pthread_barrier_wait(j->bar);
+  j->f(j->ac, j->av);
+  fclose(OUT);
+  return NULL;
+}
+static void run_threaded(op_fn f, int ac, char **av, int nthreads)
+{
+  pthread_t th[64]; tjob job[64]; pthread_barrier_t bar; FILE *mainout = OUT;
+  if (nthreads > 64) nthreads = 64;
+  pthread_barrier_init(&bar, NULL, (unsigned)nthreads);
+  for (int i = 0; i < nthreads; i++) { job[i].f = f; job[i].ac = ac; job[i].av = av; job[i].buf = NULL; job[i].len = 0; job[i].bar = &bar; pthread_create(&th[i], NULL, trun, &job[i]); }
+  for (int i = 0; i < nthreads; i++) pthread_join(th[i], NULL);
+  pthread_barrier_destroy(&bar);
+  OUT = mainout;
+  fwrite(job[0].buf, 1, job[0].len, OUT);
+  for (int i = 1; i < nthreads; i++)
+    if (job[i].len != job[0].len || memcmp(job[i].buf, job[0].buf, job[0].len)) { outs("THREAD-DIFFERS"); outl(i); break; }
+  for (int i = 0; i < nthreads; i++) free(job[i].buf);
+}
+
 int main(int argc, char **argv)
 {
   (void)argc; (void)argv;
   char *line = NULL; size_t cap = 0; ssize_t len;
   char **av = NULL; size_t avcap = 0;
-  OUT = stdout;
+  OUT = stdout; MAINOUT = stdout;
   static char obuf[1 << 20];
   setvbuf(stdout, obuf, _IOFBF, sizeof obuf);
   mp_set_memory_functions(rec_alloc, rec_realloc, rec_free);
   signal(SIGSEGV, on_signal); signal(SIGFPE, on_signal); signal(SIGABRT, on_signal); signal(SIGBUS, on_signal); signal(SIGILL, on_signal); signal(SIGALRM, on_signal);
+  int nthreads = getenv("VERIF_THREADS") ? atoi(getenv("VERIF_THREADS")) : 1; threaded = nthreads > 1;
   unsigned case_timeout = getenv("VERIF_CASE_TIMEOUT") ? (unsigned) atoi(getenv("VERIF_CASE_TIMEOUT")) : 120;
   while ((len = getline(&line, &cap, stdin)) >= 0) {
     cur_line++;
@@ -246,6 +313,7 @@ int main(int argc, char **argv)
     op_fn f = lookup(av[0]);
     long live0 = live_blocks; alloc_errors = 0;
     if (!f) outs("UNKNOWN-OP");
+    else if (nthreads > 1 && strncmp(av[0], "globals_", 8)) run_threaded(f, ac, av, nthreads);
     else f(ac, av);
     alarm(0);
     if (live_blocks != live0) { outs("LEAK"); outl(live_blocks - live0); }
